@@ -1423,3 +1423,152 @@ def unmemoise_locals(tree):
     if changed:
         _link(tree)
     return changed
+
+
+def accumulator_to_value(tree):
+    """a writer that collects the fragments of a whole tree in one list and joins it once --
+
+        frags = []
+        def rec(node):
+            if node.is_leaf: frags.append(LEAF)
+            else:
+                frags.append(HEAD)
+                for child in node.children: rec(child)
+                frags.append(TAIL)
+        rec(tree)
+        .. SEP.join(frags) ..
+
+    -- reads as the recursive function returning the text of a subtree: LEAF, or f'{HEAD}{SEP}{SEP.join(rec(child) for
+    child in node.children)}{SEP}{TAIL}'.  The two agree whenever a node that loops over its children has at least one
+    (an inner node of a depccg Tree has one or two); the fragments, their order and the separator are what is read."""
+    changed = False
+    for fn in [n for n in ast.walk(tree) if isinstance(n, FUNCS)]:
+        recs = [s for s in fn.body if isinstance(s, ast.FunctionDef)]
+        for rec in recs:
+            if len(rec.args.args) != 1 or rec.args.vararg or rec.args.kwarg or rec.args.kwonlyargs or rec.decorator_list:
+                continue
+            if any(isinstance(n, ast.Return) and n.value is not None for n in ast.walk(rec)) or any(isinstance(n, (ast.Yield, ast.YieldFrom)) for n in ast.walk(rec)):
+                continue
+            # the list: appended to in rec, created empty in fn
+            apps = [n for n in ast.walk(rec) if isinstance(n, ast.Call) and isinstance(n.func, ast.Attribute) and n.func.attr == 'append'
+                    and isinstance(n.func.value, ast.Name) and len(n.args) == 1 and not n.keywords]
+            names = {n.func.value.id for n in apps}
+            if len(names) != 1:
+                continue
+            L = names.pop()
+            init = [s for s in fn.body if ((isinstance(s, ast.Assign) and len(s.targets) == 1 and isinstance(s.targets[0], ast.Name) and s.targets[0].id == L)
+                                           or (isinstance(s, ast.AnnAssign) and isinstance(s.target, ast.Name) and s.target.id == L and s.value is not None))
+                    and isinstance(s.value, ast.List) and not s.value.elts]
+            if len(init) != 1:
+                continue
+            # uses in fn outside rec: the initialisation, one `rec(x)` statement, SEP.join(L)
+            start = [s for s in fn.body if isinstance(s, ast.Expr) and isinstance(s.value, ast.Call) and isinstance(s.value.func, ast.Name)
+                     and s.value.func.id == rec.name and len(s.value.args) == 1 and not s.value.keywords]
+            if len(start) != 1:
+                continue
+            joins = []
+            other = False
+            in_rec = {id(n) for n in ast.walk(rec)}
+            for n in ast.walk(fn):
+                if id(n) in in_rec:
+                    continue
+                if isinstance(n, ast.Call) and isinstance(n.func, ast.Attribute) and n.func.attr == 'join' and isinstance(n.func.value, ast.Constant) \
+                        and isinstance(n.func.value.value, str) and len(n.args) == 1 and isinstance(n.args[0], ast.Name) and n.args[0].id == L and not n.keywords:
+                    joins.append(n)
+            accounted = {id(j.args[0]) for j in joins} | {id(init[0].targets[0] if isinstance(init[0], ast.Assign) else init[0].target)}
+            for n in ast.walk(fn):
+                if isinstance(n, ast.Name) and n.id == L and id(n) not in in_rec and id(n) not in accounted:
+                    other = True
+                if isinstance(n, ast.Name) and n.id == rec.name and id(n) not in in_rec and n is not start[0].value.func:
+                    other = True
+            seps = {j.func.value.value for j in joins}
+            if other or len(joins) != 1 or len(seps) != 1:
+                continue
+            i_init, i_start = fn.body.index(init[0]), fn.body.index(start[0])
+            i_join = [k for k, s in enumerate(fn.body) if any(n is joins[0] for n in ast.walk(s))]
+            if not i_join or not (i_init < i_start < i_join[0]) or fn.body.index(rec) > i_start:
+                continue
+            sep = seps.pop()
+            ok = [True]
+
+            def text_of(items, at):
+                vals = []
+                for k, it in enumerate(items):
+                    if k:
+                        vals.append(ast.Constant(value=sep))
+                    if it[0] == 'frag':
+                        x = it[1]
+                        if isinstance(x, ast.JoinedStr):
+                            vals.extend(_clone(v) for v in x.values)
+                        elif isinstance(x, ast.Constant) and isinstance(x.value, str):
+                            vals.append(_clone(x))
+                        else:
+                            vals.append(ast.FormattedValue(value=_clone(x), conversion=-1, format_spec=None))
+                    else:
+                        gen = ast.GeneratorExp(elt=ast.Call(func=ast.Name(id=rec.name, ctx=ast.Load()), args=[_clone(it[3])], keywords=[]),
+                                               generators=[ast.comprehension(target=_clone(it[1]), iter=_clone(it[2]), ifs=[], is_async=0)])
+                        vals.append(ast.FormattedValue(value=ast.Call(func=ast.Attribute(value=ast.Constant(value=sep), attr='join', ctx=ast.Load()), args=[gen], keywords=[]),
+                                                       conversion=-1, format_spec=None))
+                merged = []
+                for v in vals:
+                    if merged and isinstance(v, ast.Constant) and isinstance(merged[-1], ast.Constant):
+                        merged[-1] = ast.Constant(value=merged[-1].value + v.value)
+                    else:
+                        merged.append(v)
+                if not items:
+                    ok[0] = False
+                return ast.copy_location(ast.Return(value=ast.JoinedStr(values=merged)), at)
+
+            def touches(s):
+                return any(isinstance(n, ast.Name) and n.id in (L, rec.name) for n in ast.walk(s))
+
+            def conv(stmts, acc, at):
+                out = []
+                for k, s in enumerate(stmts):
+                    if isinstance(s, ast.Expr) and any(s.value is a for a in apps):
+                        acc = acc + [('frag', s.value.args[0])]
+                        continue
+                    if isinstance(s, ast.For) and not s.orelse and len(s.body) == 1 and isinstance(s.body[0], ast.Expr) and isinstance(s.body[0].value, ast.Call) \
+                            and isinstance(s.body[0].value.func, ast.Name) and s.body[0].value.func.id == rec.name and len(s.body[0].value.args) == 1 \
+                            and not s.body[0].value.keywords and not touches(s.iter) and not touches(s.body[0].value.args[0]):
+                        acc = acc + [('kids', s.target, s.iter, s.body[0].value.args[0])]
+                        continue
+                    if isinstance(s, ast.Return):
+                        out.append(text_of(acc, s))
+                        return out
+                    if not touches(s):
+                        out.append(s)
+                        continue
+                    if isinstance(s, ast.If) and not touches(s.test):
+                        rest = stmts[k + 1:]
+                        a = conv(list(s.body) + [_clone(x) for x in rest], list(acc), s)
+                        b = conv(list(s.orelse) + list(rest), list(acc), s)
+                        out.append(ast.copy_location(ast.If(test=s.test, body=a, orelse=b), s))
+                        return out
+                    ok[0] = False
+                    return out
+                out.append(text_of(acc, at))
+                return out
+            new_body = conv([x for x in rec.body], [], rec.body[-1])
+            if not ok[0]:
+                continue
+            rec.body = new_body
+            rec.returns = None
+            call = start[0].value
+
+            class _J(ast.NodeTransformer):
+                def visit_Call(self_, n):
+                    if n is joins[0]:
+                        return ast.copy_location(call, n)
+                    self_.generic_visit(n)
+                    return n
+            for k, s in enumerate(list(fn.body)):
+                if k > i_start:
+                    fn.body[k] = _J().visit(s)
+            fn.body.remove(start[0])
+            fn.body.remove(init[0])
+            ast.fix_missing_locations(fn)
+            changed = True
+    if changed:
+        _link(tree)
+    return changed
